@@ -493,10 +493,13 @@ class Watch:
         self.orphan_chi2 = 0         # evaluations inside the loop phase that no recognised iteration accounts for
         self.overdue = False         # a move type was drawn although the budget was already used up
         self.in_accept = False
+        self.draws_in_accept = 0
         self.bonds = None            # snapshot of the bond table the search was started with
 
     # ---- random seam listener --------------------------------------------------------
     def on_draw(self, site, fname, args, value):
+        if self.in_accept:
+            self.draws_in_accept += 1
         if site == "_minimize_molecules" and fname == "choice":
             self.on_choice(value, args[0] if args else None)
         elif site == "accept_metropolis" and fname == "rand":
@@ -657,6 +660,11 @@ class Watch:
         elif u is None:
             expect = None
             ctx.probe("acceptance_draw_not_observed")
+            if result and self.draws_in_accept == 0:
+                # a worse proposal was accepted and the acceptance test consumed NO random number at all (every numpy draw
+                # goes through the seam): that is acceptance with probability 1, not 0.01 E_held / E_new
+                ctx.violate("C09", "metropolis-rule", f"E_held={e0!r} E_new={e1!r}: a worse proposal was accepted without any "
+                                                      f"random draw", key="no-draw")
         else:
             thr = 0.01 * (e0 / e1)
             expect = None if abs(u - thr) < 1e-12 else (u <= thr)
@@ -735,6 +743,7 @@ def make_monitors(ctx, watch, real):
 
     def mon_accept(energy_0, energy_1, *a, **kw):
         watch.accept_u = None
+        watch.draws_in_accept = 0
         watch.in_accept = True
         try:
             res = real_accept(energy_0, energy_1, *a, **kw)
